@@ -585,6 +585,25 @@ func RunC18(ctx *core.Ctx, r *core.Rng) {
 			budget, depth = r.Range(66000, 140000), r.Range(4, 12)
 		}
 		c.Rec = &WriteRec{Newick: genTreeSpec(r, depth, &budget)}
+		if !long && r.Chance(0.04) {
+			// a deep tree: a spine of 30-300 levels with a few side branches, so that
+			// the traversal's explicit stack grows past 32/64/128/256 entries before a stop
+			ctx.Stats.Inc("probe/deep_tree")
+			root := &NodeSpec{}
+			cur := root
+			for d, levels := 0, core.Pick(r, []int{r.Range(30, 70), r.Range(60, 140), r.Range(120, 300)}); d < levels; d++ {
+				next := &NodeSpec{}
+				if r.Chance(0.15) {
+					cur.Children = append(cur.Children, &NodeSpec{})
+				}
+				cur.Children = append(cur.Children, next)
+				if r.Chance(0.15) {
+					cur.Children = append(cur.Children, &NodeSpec{})
+				}
+				cur = next
+			}
+			c.Rec = &WriteRec{Newick: root}
+		}
 		if long {
 			for c.Rec.Newick.count() < 66000 { // top up with leaves under the root
 				c.Rec.Newick.Children = append(c.Rec.Newick.Children, &NodeSpec{})
